@@ -142,6 +142,86 @@ def run_config(unit):
     return st
 
 
+# ------------------------------------------------------------------------------------------------------------
+# schedules: serializer objects are shared by all threads of a process ("must be thread safe"): two threads that
+# serialise / deserialise at the same time must each get the bytes / value of their own call
+THREAD_VALUES = {
+    "A": [{1, 2}, 2 ** 70, {"k": (1, 2)}],
+    "B": ["text", complex(1, 2), [3.5, None]],
+}
+
+
+def make_sched_run(cfg):
+    from vf import sched as S
+    from vf.common import install_shims
+    from vf.explore import HarnessError
+    install_shims()
+    from Pyro5 import serializers, config
+    import uuid as _uuid
+    import decimal as _decimal
+    vals = {"A": THREAD_VALUES["A"] + [_uuid.UUID(int=5)], "B": THREAD_VALUES["B"] + [_decimal.Decimal("2.50")]}
+    ser = serializers.serializers[cfg["ser"]]
+    watch = S.watch_functions(serializers.SerializerBase, type(ser))
+    op = cfg["op"]
+
+    def do(v):
+        if op == "dumps":
+            return bytes(ser.dumps(v))
+        if op == "dumpsCall":
+            return bytes(ser.dumpsCall("obj", "meth", (v,), {"kw": v}))
+        if op == "roundtrip":
+            return ser.loads(ser.dumps(v))
+        if op == "roundtripCall":
+            return ser.loadsCall(ser.dumpsCall("obj", "meth", (v,), {"kw": v}))
+    expected = {}
+    for t in ("A", "B"):
+        expected[t] = []
+        for v in vals[t]:
+            try:
+                expected[t].append(("ok", do(v)))
+            except Exception as x:
+                expected[t].append(("exc", type(x).__name__))
+
+    def run_fn(chooser):
+        config.reset(False)
+        sch = S.Scheduler(chooser, watch=watch)
+        sch.install()
+        got = {"A": [], "B": []}
+        violations = []
+        try:
+            def body(t):
+                def f():
+                    for v in vals[t][cfg["i"]:cfg["i"] + 1]:
+                        try:
+                            got[t].append(("ok", do(v)))
+                        except S.AbortExecution:
+                            raise
+                        except Exception as x:
+                            got[t].append(("exc", type(x).__name__))
+                return f
+            sch.spawn(body("A"), "ser-A")
+            sch.spawn(body("B"), "ser-B")
+            outcome = sch.run()
+            if outcome != "quiescent":
+                raise HarnessError("serializer schedule ended with %s" % outcome)
+            for t in ("A", "B"):
+                want = expected[t][cfg["i"]:cfg["i"] + 1]
+                ok = len(got[t]) == len(want) and all(g[0] == w[0] and (same(g[1], w[1]) if g[0] == "ok" else g[1] == w[1]) for g, w in zip(got[t], want))
+                if not ok:
+                    violations.append({"fingerprint": "C01|%s|concurrent-%s-gives-another-threads-data" % (cfg["ser"], op),
+                                       "what": "thread %s got %s, alone it gets %s [cfg=%s]" % (t, show(got[t], 200), show(want, 200), cfg), "replay": {"sched_cfg": cfg}})
+            return {"outcome": repr((outcome, [g[0] for g in got["A"]], [g[0] for g in got["B"]], not violations)), "violations": violations,
+                    "sample": {"cfg": cfg, "points": len(chooser.points)}}
+        finally:
+            sch.teardown()
+    return run_fn
+
+
+def sched_task(unit):
+    from vf.common import run_unit
+    return run_unit(make_sched_run, unit)
+
+
 def run(ctx):
     max_nodes = 3 if ctx.quick else 4
     units = []
@@ -155,6 +235,15 @@ def run(ctx):
     total = Stats()
     for st in ctx.pmap(run_config, units):
         total.merge(st)
+    # --- thread-safety of the shared serializer objects (engine T)
+    from vf.common import explore_parallel
+    scfgs = [{"ser": sn_, "op": op, "i": i, "p": 2 if ctx.quick else 3, "horizon": 3000}
+             for sn_ in sorted(serializers.serializers) for op in ("dumps", "dumpsCall", "roundtrip", "roundtripCall") for i in range(4)]
+    sstats = explore_parallel(ctx, sched_task, scfgs, lambda c: c["p"], lambda c: 10 ** 6)
+    total.violations.extend(sstats.violations)
+    total.extra["serializer_schedules_explored"] = sstats.executions
+    total.extra["serializer_schedule_points"] = sstats.points
+    total.extra["serializer_schedule_outcomes"] = len(sstats.outcomes)
     nvals = len(trees(max_nodes))
     cov = coverage_from_stats(
         total,
@@ -162,7 +251,8 @@ def run(ctx):
              "10 extended atoms; list/dict/tuple/set/frozenset/int-key-dict containers) x 4 serializers x compression off/on x request+response annotations absent/"
              "present, each sent through positional argument, keyword argument, result, batch result, streamed item, attribute write and attribute read on a real "
              "Proxy/Daemon pair; result position defines the mapping M, all other positions must agree, M must be idempotent and deterministic, core values exact; "
-             "distinct = distinct value trees" % (max_nodes, nvals, 32),
+             "additionally every schedule (line granularity inside serializers.py, preemption bound 2/3) of two threads serialising/deserialising different values with "
+             "the shared serializer objects must give each thread its own data; distinct = distinct value trees" % (max_nodes, nvals, 32),
         nontrivial=len(total.states))
     return {"violations": total.violations, "coverage": cov,
             "assumptions": ["transport is the in-memory socket pair with faithful delivery; the daemon's real multiplex event handler is pumped synchronously",
@@ -170,6 +260,11 @@ def run(ctx):
 
 
 def replay(ctx, payload):
+    if "sched_cfg" in payload["replay"]:
+        from vf.explore import Chooser
+        run_fn = make_sched_run(payload["replay"]["sched_cfg"])
+        res = run_fn(Chooser([tuple(c) for c in payload["choices"]]))
+        return {"violations": res["violations"]}
     u = payload["replay"]["unit"]
     st = run_config(tuple(u))
     return {"violations": [v for v in st.violations if v["fingerprint"] == payload["fingerprint"]], "all": sorted(v["fingerprint"] for v in st.violations)}
